@@ -1155,7 +1155,9 @@ def check_C18(tier, seed, replay):
     # "+crlf": the two valid grammars differ in nothing but their line endings, one of which lies inside a literal
     # "+dots": the grammar file is called gram.mar.v2.ebnf (and has a sibling gram.ebnf in directory mode)
     # "+oldsrc": every edited grammar arrives with a modification time older than the destination's
-    modes = ["file", "dest", "dir", "file+wide", "dirlink", "file+crlf", "file+dots", "dir+dots", "file+oldsrc"]
+    # "+ws": the grammar texts differ in nothing but the white space after the last token (a final comment with and
+    #         without its newline - without it the text is no grammar -, trailing blank lines)
+    modes = ["file", "dest", "dir", "file+wide", "dirlink", "file+crlf", "file+dots", "dir+dots", "file+oldsrc", "file+ws", "dir+ws"]
     d = vlib.famdir("buildscript", tier)
     cf = os.path.join(d, "histories.tsv")
     lines = []
@@ -1167,11 +1169,13 @@ def check_C18(tier, seed, replay):
                 continue
             if m.endswith("+dots") and (hl.count("r") < 2 or "p:" in hl):
                 continue
+            if m.endswith("+ws") and ("e:" not in hl or hl.count("r") < 2 or "p:" in hl):
+                continue
             if m == "file+oldsrc" and ("e:" not in hl or hl.count("r") < 2 or "p:" in hl):
                 continue
             if m == "dirlink" and ("p:" in hl or hl.count("r") < 2):
                 continue      # (the symbolic-link variant: histories with two or more runs, default prefix)
-            if m in ("dir", "dirlink", "dir+dots") and ("e:missing" in hl or "i:missing" in hl):
+            if m in ("dir", "dirlink", "dir+dots", "dir+ws") and ("e:missing" in hl or "i:missing" in hl):
                 continue      # in directory mode a missing grammar file is simply not visited
             if fmt and not m.startswith("file"):
                 continue      # formatting is orthogonal to where the destination is
